@@ -274,11 +274,11 @@ Proof.
   - unfold endtag_body. rewrite pkr_mv0, (reads_pkr z _ (len bs) 62 Hr) by (rewrite peekz_app_r0; apply peekz_cons_0). reflexivity.
 Qed.
 
-Lemma trim_rev_ws u r : Forall (fun c => is_ws4 c = true) u -> trim_rev (u ++ r) = trim_rev r.
+Lemma trim_rev_ws u r : Forall (fun c => is_ws c = true) u -> trim_rev (u ++ r) = trim_rev r.
 Proof. intros Hu. induction Hu as [|c u Hc Hu IH]; [reflexivity|]. cbn [app trim_rev]. rewrite Hc. exact IH. Qed.
 
 (* name ++ ws with ws trailing blanks and no blank in name: the trimmed length is that of name *)
-Lemma trim_end_len_app a w : Forall (fun c => is_ws4 c = true) w -> Forall (fun c => is_ws4 c = false) a ->
+Lemma trim_end_len_app a w : Forall (fun c => is_ws c = true) w -> Forall (fun c => is_ws c = false) a ->
   trim_end_len (a ++ w) = len a.
 Proof.
   intros Hw Ha. unfold trim_end_len. rewrite rev_app_distr, trim_rev_ws by (apply Forall_rev; exact Hw).
@@ -302,19 +302,37 @@ Proof.
     rewrite N1, N2. reflexivity.
 Qed.
 
+Lemma is_tagend_ws c : is_ws c = true -> is_tagend c = true.
+Proof. intros H. unfold is_tagend. rewrite H. reflexivity. Qed.
+
+Lemma tagend_false c : is_tagend c = false -> is_ws c = false /\ c <> 62 /\ c <> 47.
+Proof.
+  unfold is_tagend. intros H. apply orb_false_iff in H. destruct H as [H H47]. apply orb_false_iff in H. destruct H as [Hw H62].
+  split; [exact Hw|]. split; apply Z.eqb_neq; assumption.
+Qed.
+
+(* the name of an end tag: the bytes up to the first of whitespace, '>', '/' *)
+Lemma name_run_app a b : Forall (fun c => is_tagend c = false) a -> (b = [] \/ exists c r, b = c :: r /\ is_tagend c = true) ->
+  name_run (a ++ b) = len a.
+Proof.
+  intros Ha Hb. induction Ha as [|x a Hx Ha IH]; cbn [app name_run].
+  - destruct Hb as [->|(c & r & -> & Hc)]; [reflexivity|]. cbn [name_run]. rewrite Hc. reflexivity.
+  - rewrite Hx, IH, len_cons. reflexivity.
+Qed.
+
 Lemma next_endtag d l pre name ws rest :
   at_input d l pre (60 :: 47 :: name ++ ws ++ 62 :: rest) -> intag l = false -> rawtag l = 0 ->
-  (exists c nm, name = c :: nm /\ is_letter c = true) -> Forall (fun c => c <> 62 /\ is_ws4 c = false) name ->
-  Forall (fun c => is_ws4 c = true) ws ->
+  (exists c nm, name = c :: nm /\ is_letter c = true) -> Forall (fun c => is_tagend c = false) name ->
+  Forall (fun c => is_ws c = true) ws ->
   exists l', next no_tmpl l = Ok (EndTagT, Some (mkSl (len pre) (3 + len name + len ws)), l') /\
     ltext l' = Some (mkSl (len pre + 2) (len name)) /\
-    lbuf (lz l') = lower_view (lbuf (lz l)) (mkSl (len pre) (3 + len name + len ws)) /\
+    lbuf (lz l') = lower_view (lbuf (lz l)) (mkSl (len pre + 2) (len name)) /\
     intag l' = false /\ rawtag l' = 0 /\ lerr l' = lerr l.
 Proof.
   intros Hat Hit Hraw (c & nm & Ename & Hlet) Hname Hws. pose proof (at_input_reads _ _ _ _ Hat) as Hr.
   destruct Hat as (Hi & Hcl & Hd & Hp).
   assert (Hno62 : Forall (fun c => c <> 62) (name ++ ws)).
-  { apply Forall_app. split; [eapply Forall_impl; [|exact Hname]; cbn; tauto|].
+  { apply Forall_app. split; [eapply Forall_impl; [|exact Hname]; cbn beta; intros a Ha; apply tagend_false in Ha; tauto|].
     eapply Forall_impl; [|exact Hws]. cbn. intros a Ha ->. discriminate. }
   unfold next. cbn [lz rawtag intag lerr ltext lattr lhas]. rewrite Hit, Hraw. cbn [Z.eqb negb].
   unfold next_content. cbn [lz rawtag intag lerr ltext lattr lhas].
@@ -329,25 +347,39 @@ Proof.
   unfold shift_endtag. rewrite app_assoc in Hr2.
   rewrite (endtag_loop_run _ (name ++ ws) rest Hr2 Hno62). cbn [rbind fst snd].
   destruct Hr2 as [Hw2 Hrem2].
-  pose proof (len_nonneg name). pose proof (len_nonneg ws).
-  assert (Hlim : len (name ++ ws) + 1 <= len ((name ++ ws) ++ 62 :: rest)) by (rewrite (len_app (name ++ ws)), len_cons; pose proof (len_nonneg rest); lia).
+  pose proof (len_nonneg name). pose proof (len_nonneg ws). pose proof (len_nonneg rest).
+  assert (Hlim : len (name ++ ws) + 1 <= len ((name ++ ws) ++ 62 :: rest)) by (rewrite (len_app (name ++ ws)), len_cons; lia).
   destruct (rem_mv _ (len (name ++ ws)) Hw2) as [_ Hw3]; [rewrite Hrem2; pose proof (len_nonneg (name ++ ws)); lia|].
   rewrite lexeme_from_spec by (exact Hw3 || (cbn [mv lpos lstart]; pose proof (len_nonneg (name ++ ws)); lia)). cbn [rbind].
   destruct (rem_mv _ (len (name ++ ws) + 1) Hw2) as [_ Hw4]; [rewrite Hrem2; pose proof (len_nonneg (name ++ ws)); lia|].
   assert (Hw4' : lx_wf (mv (mv (mv (lz l) 2) (len (name ++ ws))) 1)) by (rewrite (mv_mv (mv (lz l) 2)); exact Hw4).
-  rewrite shiftv_spec by exact Hw4'. cbn [rbind fst snd mv lstart lpos so sn].
+  rewrite shiftv_spec by exact Hw4'. cbn [rbind fst snd mv lstart lpos so sn lbuf].
+  assert (Hlenall : len (60 :: 47 :: name ++ ws ++ 62 :: rest) = 3 + len name + len ws + len rest) by (rewrite !len_cons, !len_app, len_cons; lia).
   (* the trimmed text *)
-  assert (Htrim : trim_end_len (view_bytes (lbuf (mv (lz l) 2)) (mkSl (lstart (lz l) + 2) (lpos (lz l) + 2 + len (name ++ ws) - lstart (lz l) - 2))) = len name).
-  { unfold view_bytes. cbn [so sn mv lbuf]. rewrite Hcl.
+  assert (Htrim : trim_end_len (view_bytes (lbuf (lz l)) (mkSl (lstart (lz l) + 2) (lpos (lz l) + 2 + len (name ++ ws) - lstart (lz l) - 2))) = len name).
+  { unfold view_bytes. cbn [so sn]. rewrite Hcl.
     replace (lpos (lz l) + 2 + (lpos (lz l) + 2 + len (name ++ ws) - lpos (lz l) - 2)) with (lpos (lz l) + (2 + len (name ++ ws))) by lia.
-    rewrite (reads_slice (lz l) _ 2 (2 + len (name ++ ws)) Hr) by (rewrite ?len_cons, ?len_app, ?len_cons; pose proof (len_nonneg rest); lia).
+    rewrite (reads_slice (lz l) _ 2 (2 + len (name ++ ws)) Hr) by (rewrite ?len_app in *; lia).
     assert (Hs : slice (60 :: 47 :: name ++ ws ++ 62 :: rest) 2 (2 + len (name ++ ws)) = name ++ ws).
-    { rewrite (app_assoc name ws). unfold slice. change (skipz 2 (60 :: 47 :: (name ++ ws) ++ 62 :: rest)) with ((name ++ ws) ++ 62 :: rest).
-      replace (2 + len (name ++ ws) - 2) with (len (name ++ ws)) by lia.
-      unfold firstz, len. rewrite Nat2Z.id, firstn_app, Nat.sub_diag, firstn_all. cbn. rewrite app_nil_r. reflexivity. }
-    rewrite Hs. apply trim_end_len_app; [exact Hws|]. eapply Forall_impl; [|exact Hname]. cbn. tauto. }
-  rewrite Htrim. rewrite len_app. rewrite Hcl, Hp.
+    { rewrite (app_assoc name ws). exact (slice_mid' [60; 47] (name ++ ws) (62 :: rest)). }
+    rewrite Hs. apply trim_end_len_app; [exact Hws|]. eapply Forall_impl; [|exact Hname]. cbn beta. intros a Ha. apply tagend_false in Ha. tauto. }
+  rewrite Htrim.
+  (* the name *)
+  assert (Hname_run : name_run (skipz 2 (view_bytes (lbuf (lz l)) (mkSl (lstart (lz l)) (lpos (lz l) + 2 + len (name ++ ws) + 1 - lstart (lz l))))) = len name).
+  { unfold view_bytes. cbn [so sn]. rewrite Hcl.
+    replace (lpos (lz l) + (lpos (lz l) + 2 + len (name ++ ws) + 1 - lpos (lz l))) with (lpos (lz l) + (3 + len (name ++ ws))) by lia.
+    pose proof (reads_slice (lz l) _ 0 (3 + len (name ++ ws)) Hr ltac:(pose proof (len_nonneg (name ++ ws)); lia) ltac:(rewrite ?len_app in *; lia)) as Hsl.
+    rewrite Z.add_0_r in Hsl. rewrite Hsl.
+    assert (Hs : slice (60 :: 47 :: name ++ ws ++ 62 :: rest) 0 (3 + len (name ++ ws)) = 60 :: 47 :: name ++ ws ++ [62]).
+    { replace (60 :: 47 :: name ++ ws ++ 62 :: rest) with ((60 :: 47 :: name ++ ws ++ [62]) ++ rest) by (cbn [app]; rewrite <- !app_assoc; reflexivity).
+      replace (3 + len (name ++ ws)) with (len (60 :: 47 :: name ++ ws ++ [62])) by (rewrite !len_cons, !len_app; change (len [62]) with 1; lia).
+      apply slice_app_first. }
+    rewrite Hs. change (skipz 2 (60 :: 47 :: name ++ ws ++ [62])) with (name ++ ws ++ [62]).
+    apply name_run_app; [exact Hname|]. right. destruct ws as [|w ws']; [exists 62, []; split; reflexivity|].
+    exists w, (ws' ++ [62]). split; [reflexivity|]. apply is_tagend_ws. inversion Hws; assumption. }
+  rewrite Hname_run. rewrite len_app. rewrite Hcl, Hp.
   replace (len pre + 2 + (len name + len ws) + 1 - len pre) with (3 + len name + len ws) by lia.
+  replace (2 <=? 3 + len name + len ws) with true by (symmetry; apply Z.leb_le; lia).
   eexists. split; [reflexivity|].
   cbn [ltext lz intag rawtag lerr lx_lower lbuf skip mv]. repeat split.
 Qed.
@@ -1106,7 +1138,7 @@ Lemma next_foreign d l pre name inner ename ews rest h :
   (exists c nm, name = c :: nm /\ is_letter c = true) -> Forall namechar name ->
   to_hash (map lower name) = Ok h -> to_hash (map lower ename) = Ok h -> is_xml_hash h = true ->
   (exists c r, inner = c :: r /\ (is_ws c = true \/ c = 62)) -> xml_inner inner ->
-  Forall (fun c => is_letter c = true) ename -> Forall (fun c => is_ws4 c = true) ews ->
+  Forall (fun c => is_letter c = true) ename -> Forall (fun c => is_ws c = true) ews ->
   let n := 1 + len name + len inner + 2 + len ename + len ews + 1 in
   exists l', next no_tmpl l = Ok (foreign_ty h, Some (mkSl (len pre) n), l') /\
     ltext l' = Some (mkSl (len pre + 1) (len name)) /\
@@ -1151,7 +1183,7 @@ Proof.
     rewrite Ht. cbn [so sn mv lpos]. lia. }
   assert (Herest : exists c0 r0, ews ++ 62 :: rest = c0 :: r0 /\ is_letter c0 = false).
   { destruct ews as [|w ews']; [exists 62, rest; split; reflexivity|]. exists w, (ews' ++ 62 :: rest). split; [reflexivity|].
-    inversion Hews as [|? ? Hw _]; subst. unfold is_ws4 in Hw. unfold is_letter.
+    inversion Hews as [|? ? Hw _]; subst. unfold is_ws in Hw. unfold is_letter.
     repeat (apply orb_true_iff in Hw; destruct Hw as [Hw|Hw]); apply Z.eqb_eq in Hw; subst w; reflexivity. }
   unfold shift_xml.
   rewrite (xml_loop_run h z2 inner ename (ews ++ 62 :: rest) Hr3 Hinner Helet Heh Herest) by (unfold z2, lx_lower; cbn [mv lstart lpos]; lia).
@@ -1163,7 +1195,7 @@ Proof.
     replace (len inner + 2 + len ename) with (len (inner ++ 60 :: 47 :: ename)) by (rewrite len_app, !len_cons; lia). apply skipz_app_len. }
   rewrite Hsk in Hr4.
   assert (Hews2 : Forall (fun c0 => c0 <> 62 /\ c0 <> 0) ews).
-  { eapply Forall_impl; [|exact Hews]. cbn beta. intros a Ha. unfold is_ws4 in Ha. 
+  { eapply Forall_impl; [|exact Hews]. cbn beta. intros a Ha. unfold is_ws in Ha. 
     repeat (apply orb_true_iff in Ha; destruct Ha as [Ha|Ha]); apply Z.eqb_eq in Ha; subst a; split; discriminate. }
   rewrite (xml_close_loop_run _ ews rest Hr4 Hews2). cbn [rbind].
   destruct Hr4 as [Hw4 Hrem4].
@@ -1175,13 +1207,20 @@ Proof.
 Qed.
 
 (* ---- raw text without any '<' (also for script) ------------------------------------------------------------------------ *)
+Lemma tagend_not_letter c : is_tagend c = true -> is_letter c = false.
+Proof.
+  unfold is_tagend, is_ws, is_letter. intros H.
+  repeat (apply orb_true_iff in H; destruct H as [H|H]); apply Z.eqb_eq in H; subst c; reflexivity.
+Qed.
+
 Lemma rawtext_loop_nolt raw z content ename erest has :
   reads z (content ++ 60 :: 47 :: ename ++ erest) -> Forall (fun c => c <> 60) content ->
   Forall (fun c => is_letter c = true) ename -> to_hash (map lower ename) = Ok raw ->
-  (exists c r, erest = c :: r /\ is_letter c = false) -> lstart z <= lpos z ->
+  (exists c r, erest = c :: r /\ is_tagend c = true) -> lstart z <= lpos z ->
   loop (fuel_of z) (rawtext_body no_tmpl raw) (z, has) = Ok (mkLx (lbuf z) (lpos z + len content) (lstart z), has).
 Proof.
-  intros Hr Hc Hlet Hhash (ce & re & Ee & Hce) Hst.
+  intros Hr Hc Hlet Hhash (ce & re & Ee & Hte) Hst.
+  assert (Hce : is_letter ce = false) by (apply tagend_not_letter; exact Hte).
   pose proof (len_nonneg content). pose proof (len_nonneg ename). pose proof (len_nonneg erest).
   assert (Hlens : len (content ++ 60 :: 47 :: ename ++ erest) = len content + 2 + len ename + len erest) by (rewrite len_app, !len_cons, len_app; lia).
   apply (loop_scan2 _ z has (len content)); [lia| | |eapply fuel_of_enough; [exact Hr|lia]].
@@ -1212,6 +1251,8 @@ Proof.
       replace (content ++ 60 :: 47 :: ename ++ erest) with ((content ++ [60; 47]) ++ ename ++ erest) by (rewrite <- app_assoc; reflexivity).
       replace (len content + 2) with (len (content ++ [60; 47])) by (rewrite len_app; reflexivity). apply slice_mid'. }
     rewrite Hbytes, Hhash. cbn [rbind]. rewrite Z.eqb_refl.
+    rewrite pkr_mv0, (reads_pkr _ _ (len ename) ce (conj Hw2 Hrem2)) by (rewrite peekz_app_r0, Ee; apply peekz_cons_0). cbn [rbind].
+    rewrite Hte. cbn [orb].
     unfold rewind, mark. cbn [mv lbuf lpos lstart]. do 3 f_equal. f_equal. lia.
 Qed.
 
@@ -1219,7 +1260,7 @@ Lemma next_rawtext_nolt d l pre content ename erest h :
   at_input d l pre (content ++ 60 :: 47 :: ename ++ erest) -> intag l = false -> rawtag l = h ->
   h <> 0 -> h <> html_hash_Plaintext -> content <> [] -> Forall (fun c => c <> 60) content ->
   Forall (fun c => is_letter c = true) ename -> to_hash (map lower ename) = Ok h ->
-  (exists c r, erest = c :: r /\ is_letter c = false) ->
+  (exists c r, erest = c :: r /\ is_tagend c = true) ->
   exists l', next no_tmpl l = Ok (TextT, Some (mkSl (len pre) (len content)), l') /\
     ltext l' = Some (mkSl (len pre) (len content)) /\ lbuf (lz l') = lbuf (lz l) /\
     intag l' = false /\ rawtag l' = 0 /\ lerr l' = lerr l.
